@@ -13,19 +13,32 @@ every check (harness/pegx), `FV.Peg.parse` is pigeon's matching algorithm with e
 `FV.Act` are the semantic actions written by hand from the Go code.  The theorems below are about
 the REGENERATED grammar: an edit of grammar.peg re-checks them.
 
-Covered by theorem (for all inputs of the stated shape, with an explicit fuel bound):
-  Letter, Digit, Identifier (`c10_identifier`), IntConstant and its value (`c10_int_literal`),
-  the numbering loop of the Enum action (`c10_enum_numbering`), FieldType for base-type names and
-  for named types (`c10_type_roundtrip_partial`), the interpreter itself (`c10_peg_fuel_monotone`:
-  a result obtained with some fuel is the result with any larger fuel, so the fuel is not part of
-  the meaning).  Concrete instances evaluated by the kernel: nested container types, comments and
-  separators inside a struct, the keyword-prefix finding (`c10_type_roundtrip_counterexample`).
+Covered by theorem (for all inputs of the stated shape, each with an explicit fuel bound):
+  Letter, Digit, Identifier (`c10_identifier`); IntConstant and its value (`c10_int_literal`);
+  the numbering loop of the Enum action (`c10_enum_numbering`);
+  FieldType, BaseType, BaseTypeName, ContainerType, MapType, SetType, ListType, CppType (absent), WS,
+  TypeAnnotations (absent): `c10_type_roundtrip` — every annotation-free type, arbitrarily nested,
+  in every white-space styling of its brackets, by induction over the type
+  (`c10_type_roundtrip_canonical`, `c10_type_ws_invisible`);
+  Whitespace, EOL, Comment, MultiLineComment, MultiLineCommentNoLineTerminator, SingleLineComment,
+  SourceChar, DocString (absent), `_`, `__`: `c10_gap_texts` / `c10_gap_consumed` — every text made of
+  white space, newlines, block comments, `//` and `#` comments is consumed exactly by the gap rule;
+  `c10_type_comments_invisible` — such a text after a type does not change the value;
+  the sequence `typ:FieldType _ name:Identifier` of Field / TypeDef / Const (`c10_roundtrip_partial`);
+  the interpreter itself (`c10_peg_fuel_monotone`: a result obtained with some fuel is the result
+  with any larger fuel, so the fuel is not part of the meaning).
+  Reusable combinators for further rules are in Proofs/Peg.lean (`ParsesTo`, `FailsOn`, `SeqRun`,
+  `ChoiceRun`, `StarRun`) and Proofs/PegGaps.lean (`IsGap`: gaps as abstract texts).
+  Concrete instances evaluated by the kernel: an annotated nested type, the keyword-prefix finding
+  (`c10_type_roundtrip_counterexample`).
 Covered by correspondence only (harness suite c10: original model = real parser = this interpreter
-on the regenerated grammar, whole files and fragments, every run): ContainerType for arbitrary
-nesting, Literal, DoubleConstant, ConstValue/ConstList/ConstMap, TypeAnnotations, Field, FieldList,
-StructLike/Struct/Exception/Union, Enum/EnumValue syntax, TypeDef, Const, Namespace, Include,
-Function, Throws, Service, Scope, Prefix, Operation, DocString, comments, `__`/`_`/WS, EOS, Statement,
-Grammar (the top-level round trip `parse (render m) = m` is the stated goal and is NOT proved here).
+on the regenerated grammar, whole files and fragments, every run): type annotations and comments
+after a base/container type inside brackets, Literal, DoubleConstant, BoolConstant,
+ConstValue/ConstList/ConstMap, TypeAnnotations/TypeAnnotation (present), Field as a whole (docstr, id,
+modifier, default, separator), FieldList, StructLike/Struct/Exception/Union, Enum/EnumValue syntax,
+TypeDef, Const, Namespace, Include, Function, FunctionType, Throws, Service, Scope, Prefix, Operation,
+DocString (present), EOS, Statement, Grammar (the top-level round trip `parse (render m) = m` is the
+stated goal and is NOT proved here; `c10_roundtrip_partial` names the largest multi-rule fragment proved).
 Recorded findings (KNOWN_FINDINGS.txt) are outside every hypothesis: identifiers with a keyword
 prefix in a keyword position, statements sharing a line, literals ending in a backslash, a comment
 after `prefix`, Thrift constructs without a production.
@@ -38,6 +51,7 @@ import FV.Proofs.Peg
 import FV.Proofs.PegIdl
 import FV.Proofs.PegGaps
 import FV.Proofs.PegTypes
+import FV.Proofs.PegComments
 
 namespace FV.C10
 open FV.Peg FV.Act FV.Syn FV.Generated FV.PegIdl
@@ -169,7 +183,7 @@ arbitrarily nested `list`/`set`/`map` — in every white-space styling of its br
 type plus the white space written after `<`, before `,`/`>` and after `,`): parsing the rendered
 text, followed by any separator (`rest` does not start with an identifier character, `<`, `(`,
 white space or a comment), consumes exactly the text, and the actions return the type (`erase`).
-By induction over the type; fuel bound `cost s + 70`, where `cost` adds 30 per list/set, 40 per
+By induction over the type; fuel bound `cost s + 110`, where `cost` adds 30 per list/set, 40 per
 map, the lengths of the names and twice the lengths of the white-space runs.
 Hypothesis `Ok`: base names are the grammar's eight, named types are identifiers of which no type
 keyword is a prefix (the negation of the recorded finding keyword-prefix-identifier; without it the
@@ -177,9 +191,9 @@ statement is false: `c10_type_roundtrip_counterexample`), the `w`s are white spa
 Not covered here (correspondence only): type annotations (rule TypeAnnotations) and comments after a
 base or container type inside the brackets. -/
 theorem c10_type_roundtrip (s : STy) (hok : s.Ok) (rest : List Char) (hr : SepOk rest) (ht : TokHead rest)
-    (F : Nat) (hF : s.cost + 70 ≤ F) :
+    (F : Nat) (hF : s.cost + 110 ≤ F) :
     ∃ t, parse F grammar "FieldType" (s.render ++ rest) = .ok t rest ∧ evTy (tyFuel t) t = some s.erase := by
-  obtain ⟨t, mid, h1, hmid, htx, hev⟩ := fieldType_styled s hok [] rest (IsGap.nil _) (by simpa using hr) hr ht
+  obtain ⟨t, mid, h1, hmid, htx, hev⟩ := fieldType_styled s hok [] rest (IsGap.nil _) (by simpa using hr) hr.noParen ht
   have hm : mid = rest := by rcases hmid with h | h <;> simpa using h
   subst hm
   simp only [List.nil_append] at h1 htx
@@ -191,14 +205,14 @@ theorem c10_type_roundtrip (s : STy) (hok : s.Ok) (rest : List Char) (hr : SepOk
 /-- Every annotation-free type has a styling (the canonical one, without white space), so the
 round trip covers all of them. -/
 theorem c10_type_roundtrip_canonical (ty : Ty) (hna : NoAnns ty) (hok : (STy.canon ty).Ok) (rest : List Char)
-    (hr : SepOk rest) (ht : TokHead rest) (F : Nat) (hF : (STy.canon ty).cost + 70 ≤ F) :
+    (hr : SepOk rest) (ht : TokHead rest) (F : Nat) (hF : (STy.canon ty).cost + 110 ≤ F) :
     ∃ t, parse F grammar "FieldType" ((STy.canon ty).render ++ rest) = .ok t rest ∧ evTy (tyFuel t) t = some ty := by
   have := c10_type_roundtrip (STy.canon ty) hok rest hr ht F hF
   rwa [STy.erase_canon ty hna] at this
 
 /-- White space inside the brackets is invisible: two stylings of the same type parse to the same value. -/
 theorem c10_type_ws_invisible (s1 s2 : STy) (h1 : s1.Ok) (h2 : s2.Ok) (he : s1.erase = s2.erase) (rest : List Char)
-    (hr : SepOk rest) (ht : TokHead rest) (F : Nat) (hF1 : s1.cost + 70 ≤ F) (hF2 : s2.cost + 70 ≤ F) :
+    (hr : SepOk rest) (ht : TokHead rest) (F : Nat) (hF1 : s1.cost + 110 ≤ F) (hF2 : s2.cost + 110 ≤ F) :
     ∃ t1 t2, parse F grammar "FieldType" (s1.render ++ rest) = .ok t1 rest ∧ parse F grammar "FieldType" (s2.render ++ rest) = .ok t2 rest ∧
       evTy (tyFuel t1) t1 = evTy (tyFuel t2) t2 := by
   obtain ⟨t1, p1, e1⟩ := c10_type_roundtrip s1 h1 rest hr ht F hF1
@@ -213,6 +227,113 @@ example : (STy.list [' '] (.named "base.Item".toList) []).Ok ∧ SepOk [')'] ∧
   · intro c h; simp at h
   · intro c r h; simp at h; obtain ⟨rfl, _⟩ := h; decide
   · intro c r h; simp at h; obtain ⟨rfl, _⟩ := h; decide
+
+/-! ### white space and comments -/
+
+/-- Texts made of the items of `_`: white space characters and one-line block comments
+`/*` body `*/` (body without `*/`, without newline, not starting with `*@`). -/
+inductive UGapText : List Char → Prop
+  | nil : UGapText []
+  | ws (c : Char) (h : wsC c = true) : UGapText [c]
+  | block (body : List Char) (hb : BlockBody body) (hnl : ∀ c ∈ body, c ≠ '\n') : UGapText ('/' :: '*' :: body ++ ['*', '/'])
+  | append {a b : List Char} : UGapText a → UGapText b → UGapText (a ++ b)
+
+/-- Texts made of the items of `__`: white space, newlines, block comments (also multi-line),
+`//` and `#` comments up to and including their newline. -/
+inductive UUGapText : List Char → Prop
+  | nil : UUGapText []
+  | ws (c : Char) (h : wsC c = true) : UUGapText [c]
+  | newline : UUGapText ['\n']
+  | block (body : List Char) (hb : BlockBody body) : UUGapText ('/' :: '*' :: body ++ ['*', '/'])
+  | line (o body : List Char) (ho : LineOpener o) (hnl : ∀ c ∈ body, c ≠ '\n') : UUGapText (o ++ (body ++ ['\n']))
+  | append {a b : List Char} : UUGapText a → UUGapText b → UUGapText (a ++ b)
+
+/-- Every such text is consumed item by item by the repetition of the gap rule, whatever follows. -/
+theorem c10_gap_texts : (∀ g, UGapText g → IsGap uBody g) ∧ (∀ g, UUGapText g → IsGap uuBody g) := by
+  constructor
+  · intro g h
+    induction h with
+    | nil => exact IsGap.nil _
+    | ws c h => exact IsGap.wsChar_u c h
+    | block body hb hnl => exact IsGap.block_u body hb hnl
+    | append _ _ ih1 ih2 => exact ih1.append ih2
+  · intro g h
+    induction h with
+    | nil => exact IsGap.nil _
+    | ws c h => exact IsGap.wsChar_uu c h
+    | newline => exact IsGap.newline_uu
+    | block body hb => exact IsGap.block_uu body hb
+    | line o body ho hnl => exact IsGap.line_uu o body ho hnl
+    | append _ _ ih1 ih2 => exact ih1.append ih2
+
+/-- Rules `_` and `__` consume exactly such a text when a token follows (a character that starts
+no gap item: not white space, newline, `/`, `#`) or the input ends; fuel `2·|g| + 70`. -/
+theorem c10_gap_consumed (g next : List Char) (hn : TokHead next) (F : Nat) (hF : 2 * g.length + 70 ≤ F) :
+    (UGapText g → ∃ ts, parse F grammar "_" (g ++ next) = .ok (.seq ts) next) ∧
+    (UUGapText g → ∃ ts, parse F grammar "__" (g ++ next) = .ok (.seq ts) next) := by
+  constructor
+  · intro h
+    obtain ⟨ts, hp⟩ := u_consumes g next (c10_gap_texts.1 g h) hn
+    exact ⟨ts, hp F hF⟩
+  · intro h
+    obtain ⟨ts, hp⟩ := uu_consumes g next (c10_gap_texts.2 g h) hn
+    exact ⟨ts, hp F hF⟩
+
+/-- Comments and white space after a type are invisible: for every well-formed type, every gap text
+`g` of `_` (white space, one-line comments; separating the type from what follows when the type is a
+name) and every following token, `FieldType` then `_` consume exactly type and gap, and the value is
+the type whatever `g` is. (Inside the brackets: `c10_type_ws_invisible`.) -/
+theorem c10_type_comments_invisible (s : STy) (hok : s.Ok) (g rest : List Char) (hg : UGapText g)
+    (hsep : SepOk (g ++ rest)) (hr : NoParen rest) (ht : TokHead rest) (F : Nat) (hF : s.cost + 2 * g.length + 110 ≤ F) :
+    ∃ t mid ts, parse F grammar "FieldType" (s.render ++ (g ++ rest)) = .ok t mid ∧
+      parse F grammar "_" mid = .ok (.seq ts) rest ∧ evTy (tyFuel t) t = some s.erase := by
+  have hgap := c10_gap_texts.1 g hg
+  obtain ⟨t, mid, h1, hmid, htx, hev⟩ := fieldType_styled s hok g rest hgap hsep hr ht
+  have hlen : s.depth ≤ (textOf t).length + 1 := by
+    rw [htx]
+    rcases hmid with rfl | rfl
+    · rw [consumed_append]; exact Nat.le_succ_of_le s.depth_le_render
+    · rw [← List.append_assoc, consumed_append, List.length_append]
+      exact Nat.le_trans s.depth_le_render (by omega)
+  have hval : evTy (tyFuel t) t = some s.erase := by simpa [tyFuel] using hev _ hlen
+  rcases hmid with rfl | rfl
+  · obtain ⟨ts, hu⟩ := u_consumes g rest hgap ht
+    exact ⟨t, _, ts, h1 F hF, hu F (by omega), hval⟩
+  · obtain ⟨ts, hu⟩ := u_consumes [] mid (IsGap.nil _) ht
+    have hu' := hu F (by simp; omega)
+    simp only [List.nil_append] at hu'
+    exact ⟨t, _, ts, h1 F hF, hu', hval⟩
+
+/-! ### several rules in sequence -/
+
+theorem idStart_tok {c : Char} (h : idStart c = true) : tokC c = true ∧ c ≠ '(' := by
+  have hw := idPart_not_ws (idStart_idPart h)
+  refine ⟨?_, ?_⟩
+  · simp only [tokC, hw, Bool.false_or, Bool.not_eq_true', Bool.or_eq_false_iff, beq_eq_false_iff_ne]
+    refine ⟨⟨?_, ?_⟩, ?_⟩ <;> (intro e; subst e; revert h; decide)
+  · intro e; subst e; revert h; decide
+
+/-- The fragment `typ:FieldType _ name:Identifier` shared by the rules Field, TypeDef and Const:
+for every well-formed type, every separating gap text (white space, one-line comments) and every
+identifier-shaped name followed by a non-identifier character, the three rules in sequence consume
+exactly type, gap and name and return the type and the name (fuel `cost + 2·|gap| + |name| + 110`).
+PARTIAL with respect to the whole-file round trip `parse (render m) = m`, which is the stated goal:
+the rules covered by theorem / by correspondence only are listed in the header of this file. -/
+theorem c10_roundtrip_partial (s : STy) (hok : s.Ok) (g : List Char) (hg : UGapText g) (name rest : List Char)
+    (hname : IdentShape name) (hrest : StopsAt idPart rest) (hsep : SepOk (g ++ (name ++ rest)))
+    (F : Nat) (hF : s.cost + 2 * g.length + name.length + 110 ≤ F) :
+    ∃ t mid ts tn, parse F grammar "FieldType" (s.render ++ (g ++ (name ++ rest))) = .ok t mid ∧
+      parse F grammar "_" mid = .ok (.seq ts) (name ++ rest) ∧
+      parse F grammar "Identifier" (name ++ rest) = .ok tn rest ∧
+      evTy (tyFuel t) t = some s.erase ∧ evIdent tn = name := by
+  obtain ⟨c, tl, rfl, hc, htl⟩ := hname
+  have hnp : NoParen (c :: tl ++ rest) := by
+    intro c' r' e; simp only [List.cons_append, List.cons.injEq] at e; rw [← e.1]; exact (idStart_tok hc).2
+  have htk : TokHead (c :: tl ++ rest) := by
+    intro c' r' e; simp only [List.cons_append, List.cons.injEq] at e; rw [← e.1]; exact (idStart_tok hc).1
+  obtain ⟨t, mid, ts, h1, h2, h3⟩ := c10_type_comments_invisible s hok g (c :: tl ++ rest) hg hsep hnp htk F (by omega)
+  obtain ⟨tn, h4, h5⟩ := c10_identifier (c :: tl) rest ⟨c, tl, rfl, hc, htl⟩ hrest F (by simp at hF ⊢; omega)
+  exact ⟨t, mid, ts, tn, h1, h2, h4, h3, h5⟩
 
 /-! ### types: concrete instances evaluated by the kernel -/
 
